@@ -1,0 +1,8 @@
+//go:build verif
+
+package blockwise
+
+// VerifSizes reports the number of reassembly and sending states held (verification harness only).
+func (b *BlockWise[C]) VerifSizes() (receiving, sending int) {
+	return b.receivingMessagesCache.Length(), b.sendingMessagesCache.Length()
+}
